@@ -129,12 +129,24 @@ pub fn swap_step(
         s.volatility_reference = adaptive_fee_variables.volatility_reference;
         s.tick_group_index_reference = adaptive_fee_variables.tick_group_index_reference;
     }
-    TRACES.with(|t| {
+    let too_many = TRACES.with(|t| {
         if let Some(tr) = t.borrow_mut().last_mut() {
             tr.steps.push(s);
+            tr.steps.len() > SWAP_STEP_BUDGET
+        } else {
+            false
         }
     });
+    // Stand-in for the runtime's compute budget: a swap loop that does not terminate is aborted on chain; under the harness
+    // it must not run (and record steps) for ever either.
+    if too_many {
+        panic!("verif: swap loop exceeded {} steps (compute budget stand-in)", SWAP_STEP_BUDGET);
+    }
 }
+
+/// A legitimate swap takes at most a few hundred steps (three tick arrays of 88 ticks plus the tick groups of the
+/// adaptive-fee core range).
+pub const SWAP_STEP_BUDGET: usize = 50_000;
 
 pub fn swap_step_fees(protocol_fee_after: u64, fee_growth_global_input_after: u128) {
     TRACES.with(|t| {
